@@ -196,6 +196,13 @@ def run_case(case):
         t.count('stop_points')
         t.check(got.shape == exp_shape and got.dtype == np.uint8 and np.array_equal(got, exp), 'full_cipher_default_args',
                 lambda: dict(case=case, got=np.asarray(got).tolist(), expected=exp.tolist()))
+        # at_round left out, after_step given: the state after that step of the last round
+        for step in range(4):
+            got = fn(arr_b, arr_k, after_step=step)
+            exp = np.array([r[0][(nr, step)] for r in ref], dtype='uint8').reshape(exp_shape)
+            t.count('stop_points')
+            t.check(got.shape == exp_shape and np.array_equal(got, exp), f"stop_point_{case['dir']}",
+                    lambda: dict(nk=case['nk'], dir=case['dir'], at_round='left out', after_step=step, shape=shape, dtype=str(dt)))
     for rnd in range(nr + 1):
         for step in range(4):
             if case['dir'] == 'enc':
@@ -429,6 +436,33 @@ def _primitives(t, case):
             exp = np.array([ref(row) for row in stw.tolist()], dtype='uint8')
             t.count('primitive_values', 256)
             t.check(np.array_equal(got, exp), 'prim_' + f.__name__, lambda: dict(pos=pos))
+    # the same operations on states held in wider or signed integer types (byte values 0..255): same values as on uint8 states
+    wide_states = rng.integers(0, 256, (40, 16))
+    wide_states[0], wide_states[1] = 255, 128
+    wide_states[2, ::2], wide_states[3, 1::2] = 0x80, 0xC0
+    for f in (A.sub_bytes, A.inv_sub_bytes, A.shift_rows, A.inv_shift_rows, A.mix_columns, A.inv_mix_columns):
+        ref8 = np.asarray(f(_ro(wide_states.astype('uint8')))).astype('int64')
+        for dtn in ('int16', 'uint16', 'int32', 'uint32', 'int64', 'uint64'):
+            try:
+                g = np.asarray(f(_ro(wide_states.astype(dtn))))
+            except (ValueError, TypeError):
+                t.count('primitive_dtype_refused')
+                continue
+            t.count('primitive_values', len(wide_states))
+            t.count('primitive_wide_dtype_calls')
+            t.check(g.shape == ref8.shape and np.array_equal(g.astype('int64'), ref8), 'prim_dtype_' + f.__name__, lambda: dict(f=f.__name__, dtype=dtn, first_bad_state=wide_states[int(np.argwhere(np.any(g.astype('int64') != ref8, axis=1))[0][0])].tolist() if g.shape == ref8.shape else None))
+    wide_cols = np.concatenate([np.array(cols[:1024]), rng.integers(128, 256, (200, 4))])
+    for f in (A.mix_column, A.inv_mix_column):
+        ref8 = np.asarray(f(_ro(wide_cols.astype('uint8')))).astype('int64')
+        for dtn in ('int16', 'uint16', 'int32', 'int64', 'uint64'):
+            try:
+                g = np.asarray(f(_ro(wide_cols.astype(dtn))))
+            except (ValueError, TypeError):
+                t.count('primitive_dtype_refused')
+                continue
+            t.count('primitive_values', len(wide_cols))
+            t.count('primitive_wide_dtype_calls')
+            t.check(g.shape == ref8.shape and np.array_equal(g.astype('int64'), ref8), 'prim_dtype_' + f.__name__, lambda: dict(f=f.__name__, dtype=dtn, first_bad_column=wide_cols[int(np.argwhere(np.any(g.astype('int64') != ref8, axis=1))[0][0])].tolist() if g.shape == ref8.shape else None))
     # add_round_key in the four documented shapes
     s1, k1 = rng.integers(0, 256, 16).astype('uint8'), rng.integers(0, 256, 16).astype('uint8')
     sn, kn = rng.integers(0, 256, (5, 16)).astype('uint8'), rng.integers(0, 256, (5, 16)).astype('uint8')
